@@ -12,7 +12,8 @@ STRICT_MODEL = True
 RULE = ("request scripts over 2-6 items (text / command exit 0 / command exit 3 / command killing itself / empty command / "
         "global command with placeholders), bursts with seeded gaps of 0-30 ms around the child run time, forced schedules "
         "through named schedule points (child exits just before / just after the next request's kill, drain windows), scroll and "
-        "draw actions; non-trivial = at least 2 requests of which one is a command request that is followed by another request "
+        "draw actions; 30% of the scripts call the previewer the way Model::draw_preview does (nothing selected => the selection "
+        "closure hands out the current item, count 0); non-trivial = at least 2 requests of which one is a command request that is followed by another request "
         "before any settle; distinct by sha1 of the case line")
 ASSUMPTIONS = [
     "std::sync::mpsc is FIFO and loses nothing; thread::join returns only after the thread's last store",
@@ -131,6 +132,13 @@ def gen(rng, tier, n):
             continue
         items = gen_items(rng)
         ni = len(items)
+        # "cursor" client (the way Model::draw_preview calls the previewer): with nothing selected the selection closure
+        # hands out the CURRENT item (selection `c`); only items whose output does not read PreviewContext.selections
+        cursor_client = rng.random() < 0.3
+        if cursor_client:
+            items = [it[:-1] + "0" for it in items]
+            if not any(it[0] == "G" for it in items):
+                items[rng.randrange(ni)] = "G" + items[0][1:]
         stale_stream = rng.random() < 0.04
         g = "%dx%d" % (rng.choice(DELAYS), rng.choice([1, 2, 5, 70]))
         off = rng.choice(["-", "-", "f0", "f2", "f5", "p2", "p3", "p0", "f100"])
@@ -155,7 +163,7 @@ def gen(rng, tier, n):
                     sel = gen_sel(rng, ni, sel, stale_stream)
                 force = 1 if rng.random() < 0.12 else 0
                 ops.append("r:%d:%s:%s:%s:%d" % (cur, q if q is not None else "-", cq if cq is not None else "-",
-                                                 "+".join(map(str, sel)) or "_", force))
+                                                 "+".join(map(str, sel)) or ("c" if cursor_client else "_"), force))
                 gap = rng.choice([0, 0, 0, 0, 1, 2, 4, 8, 12, 22, 32])
                 if gap:
                     ops.append("w%d" % gap)
